@@ -213,6 +213,26 @@ def run(rep, tier):
                     ok = "unlink" in calls and "createGroup" in calls[calls.index("unlink"):] and "openGroup" not in calls
                     rep.check(ok, "R17.5", key, "existing list group is unlinked and re-created",
                               "CheckpointWriter::WriteData (list of 3-vectors)%s: an existing group is reopened (%s); a shorter list keeps stale trailing members" % (where, calls), g.loc(h), sample=True)
+    # no way out of a dataset/group writer before the object of that name has been (re)created: a `return` in front of the creation leaves a name unwritten,
+    # or - when it exists already - the old value in the file ("writing a name again replaces the old value")
+    for f in F.funcs:
+        if f.qname != W + "::WriteData" or f.j["template"] == "pattern" or not f.j.get("body"):
+            continue
+        creates = [x for x in f.walk() if x.get("k") in ("mcall", "call") and re.search(r"::(createDataSet|createGroup|CreateOrReplace\w*)$", x.get("callee") or "")]
+        creates += [x for x in f.walk() if x.get("k") in ("mcall", "call") for g_ in helpers_of(f) if x.get("callee") == g_.qname and creation_sites(g_)]
+        if not creates:
+            continue
+        gcf = CFG(f)
+        early = []
+        for r_ in f.walk():
+            if r_.get("k") != "return" or r_.get("id") not in gcf.where:
+                continue
+            if not any(c_.get("id") in gcf.where and gcf.dominates(c_["id"], r_["id"]) for c_ in creates):
+                early.append(r_)
+        key = "write-before-return|%s" % nows(f.j["sig"])[:70]
+        rep.check(not early, "R17.5", key, "every return of the writer lies behind the (re)creation of the dataset/group",
+                  "CheckpointWriter::WriteData (%s) returns at line %s before the object is created or replaced: the name is not written, and an existing value of that name survives "
+                  "(e.g. an empty vector written over a non-empty one)" % (kind_of(f.j["sig"]), early[0].get("line") if early else "?"), f.loc(early[0]) if early else f.loc())
     rep.floor("R17.5", n_w, 3, "overwrite handlers")
     check_list_names(rep, F, W, R)
     check_row_tables(rep, tier)
